@@ -72,18 +72,65 @@ def rwmod():
     return _rwlock
 
 
-def discover(rw):
-    """(locks, counters): lists of (path, getter) found by walking the instance
-    dictionaries, in definition order"""
+_REAL_LOCK = type(_thread.allocate_lock())
+
+
+def _attrs(obj):
+    """(holder, name, value) for the instance attributes of obj and then the data
+    attributes of its class(es): a lock or counter defined at class level is shared
+    by all instances and must be seen as ONE object"""
+    seen = set()
+    for k, v in list(getattr(obj, "__dict__", {}).items()):
+        seen.add(k)
+        yield obj, k, v
+    for cls in type(obj).__mro__:
+        if cls is object:
+            continue
+        for k, v in list(cls.__dict__.items()):
+            if k in seen or (k.startswith("__") and k.endswith("__")) or callable(v) \
+                    or isinstance(v, (staticmethod, classmethod, property)):
+                continue
+            seen.add(k)
+            yield cls, k, v
+
+
+def discover(rw, run):
+    """(locks, counters) of one RWLock instance, found by walking the object at run
+    time.  Locks are identified by object identity (a lock reachable under several
+    names is one lock); a real threading.Lock (e.g. created at class-definition time,
+    outside the shim) is replaced in place by an instrumented lock for this run.
+    locks: [(path, InstrLock)], counters: [(path, (object, attribute name))]"""
     locks, ctrs = [], []
-    for k, v in rw.__dict__.items():
-        if isinstance(v, InstrLock):
-            locks.append(((k,), v))
-        elif hasattr(v, "__dict__"):
-            for k2, v2 in v.__dict__.items():
-                if isinstance(v2, InstrLock):
-                    locks.append(((k, k2), v2))
-                elif isinstance(v2, int):
+    by_id = {}
+
+    def lock_at(holder, name, v, path):
+        if isinstance(v, InstrLock) and v.run is run:
+            if id(v) not in by_id:
+                by_id[id(v)] = v
+                locks.append((path, v))
+            return
+        # a real lock, or the instrumented lock of an earlier run left on a class
+        new = InstrLock(run)
+        if isinstance(v, _REAL_LOCK) and v.locked():
+            new.held = True
+        setattr(holder, name, new)
+        by_id[id(new)] = new
+        locks.append((path, new))
+
+    def is_lock(v):
+        return isinstance(v, (InstrLock, _REAL_LOCK))
+
+    mod = type(rw).__module__
+    for holder, k, v in _attrs(rw):
+        if is_lock(v):
+            lock_at(holder, k, v, (k,))
+        elif isinstance(v, int) and not isinstance(v, bool):
+            ctrs.append(((k,), (rw, k)))
+        elif hasattr(v, "__dict__") and type(v).__module__ == mod:
+            for holder2, k2, v2 in _attrs(v):
+                if is_lock(v2):
+                    lock_at(holder2, k2, v2, (k, k2))
+                elif isinstance(v2, int) and not isinstance(v2, bool):
                     ctrs.append(((k, k2), (v, k2)))
     return locks, ctrs
 
@@ -150,7 +197,7 @@ class Run(object):
             self.rw = mod.RWLock()
         finally:
             mod.threading = saved
-        self.locks, self.ctrs = discover(self.rw)
+        self.locks, self.ctrs = discover(self.rw, self)
         p = pool()
         self.ctl = p.ctl
         self.workers = p.get(self.n)
